@@ -381,6 +381,7 @@ func checkC13(c *Ctx, r *Report) {
 	c13R5(c, r)
 	c13CloseBeforeDone(c, r, "C13.R2.close-before-done")
 	c13LockReleasedOnReturn(c, r, "C13.R3.lock-released")
+	c13FreshGeneration(c, r, "C13.R4.fresh-generation")
 }
 
 func fnDisplay(f *ssa.Function) string {
